@@ -116,13 +116,13 @@ Qed.
 
 Lemma chan_view_run c c2s : is_framed (codec c) = false ->
   forall ops s, exists co,
-    chan_view ops (fst (run_from c c2s s ops)) =
+    chan_view (codec c) ops (fst (run_from c c2s s ops)) =
     Some (co, ch_run_from (chan_cap (codec c)) (chan s) co).
 Proof.
   intros Hf. induction ops as [|o ops IH]; intros s.
   - exists []. reflexivity.
   - rewrite run_from_cons. unfold step. rewrite Hf.
-    destruct o as [m|p t| |].
+    destruct o as [m|p t| | |].
     + destruct (ch_step (chan_cap (codec c)) (chan s) (ChSend m)) as [q l] eqn:E.
       cbn [fst snd].
       destruct (IH {| written := written s; closed := closed s; chan := q |}) as [co Hco].
@@ -140,6 +140,15 @@ Proof.
       destruct (IH {| written := written s; closed := closed s; chan := q |}) as [co Hco].
       exists (ChDropTx :: co). cbn [chan_view to_ch_op]. rewrite Hco, to_ch_obs_inv.
       cbn [ch_run_from chan] in *. rewrite E. reflexivity.
+    + (* CloseSink: a drop on the bounded channel, nothing on the unbounded one *)
+      destruct (codec c) as [| |cap|] eqn:Ec; try discriminate Hf.
+      * destruct (ch_step (chan_cap (TBounded cap)) (chan s) ChDropTx) as [q l] eqn:E.
+        cbn [fst snd].
+        destruct (IH {| written := written s; closed := closed s; chan := q |}) as [co Hco].
+        exists (ChDropTx :: co). cbn [chan_view to_ch_op]. rewrite Hco, to_ch_obs_inv.
+        cbn [ch_run_from chan] in *. rewrite E. reflexivity.
+      * cbn [fst snd]. destruct (IH s) as [co Hco]. exists co.
+        cbn [chan_view to_ch_op]. rewrite Hco. reflexivity.
 Qed.
 
 Theorem strict_monitor_channels : forall c ops,
@@ -461,10 +470,12 @@ Lemma step_open c c2s s o : is_framed (codec c) = true -> closed s = false ->
     end
   | Recv => (s, [])
   | Close => ({| written := written s; closed := true; chan := chan s |}, close_obs c c2s (written s))
+  | CloseSink =>
+    ({| written := written s; closed := true; chan := chan s |}, OShut :: close_obs c c2s (written s))
   end.
 Proof. intros Hf Hc. unfold step. rewrite Hf, Hc. reflexivity. Qed.
 
-Lemma collect_cons C c2s o ops l tr : o <> Close ->
+Lemma collect_cons C c2s o ops l tr : o <> Close -> o <> CloseSink ->
   collect C c2s (o :: ops) (l :: tr) =
   match collect C c2s ops tr with
   | None => None
@@ -475,7 +486,7 @@ Lemma collect_cons C c2s o ops l tr : o <> Close ->
     | None, _ => match l with [] => Some (es, cl, ro, rt) | _ => None end
     end
   end.
-Proof. intros Ho. destruct o; try reflexivity. contradiction. Qed.
+Proof. intros Ho Ho'. destruct o; try reflexivity; contradiction. Qed.
 
 (* before the first Close: one monitor entry per written entry; at Close: the reader's items *)
 Lemma run_collect c c2s : is_framed (codec c) = true ->
@@ -493,7 +504,7 @@ Proof.
   - exists [], None, [], []. split; [reflexivity|]. split; [constructor|exact I].
   - apply Forall_cons_iff in Hwf. destruct Hwf as [[Hd Hm] Hwf].
     rewrite run_from_cons, (step_open c c2s s o Hf Hc).
-    destruct o as [m|p t| |].
+    destruct o as [m|p t| | |].
     + (* Send *)
       destruct (payload_of (codec c) m) as [p|] eqn:Ep.
       * destruct (frame_encode max_frame_default p) as [f|] eqn:Ef.
@@ -533,6 +544,13 @@ Proof.
       exists ws, cl, ro, rt. split; [|split; assumption].
       rewrite collect_cons by discriminate. rewrite Hcol. reflexivity.
     + (* Close *)
+      cbn [fst snd].
+      exists [], (Some (close_obs c c2s (written s))), ops,
+        (fst (run_from c c2s {| written := written s; closed := true; chan := chan s |} ops)).
+      split; [reflexivity|]. split; [constructor|]. split.
+      * rewrite app_nil_r. reflexivity.
+      * apply run_closed; [exact Hf|reflexivity].
+    + (* CloseSink: OShut, then what a Close yields *)
       cbn [fst snd].
       exists [], (Some (close_obs c c2s (written s))), ops,
         (fst (run_from c c2s {| written := written s; closed := true; chan := chan s |} ops)).
@@ -679,4 +697,98 @@ Proof.
   exists {| codec := TBincode; chunks := []; cut := 4 |},
          [Send (MC (CCancel default_trace 1)); Close].
   split; [reflexivity|]. split; vm_compute; reflexivity.
+Qed.
+
+(* ------------------------------------------------------------------------------------------ *)
+(* closing (not dropping) the writing end of a framed transport: the close reaches the byte
+   stream and the reader sees end-of-stream right after the last message *)
+
+Lemma run_from_cons_snd c c2s s o r :
+  snd (run_from c c2s s (o :: r)) = snd (run_from c c2s (fst (step c c2s s o)) r).
+Proof.
+  cbn [run_from]. destruct (step c c2s s o) as [s1 l]. cbn [fst snd].
+  destruct (run_from c c2s s1 r) as [ls s2]. reflexivity.
+Qed.
+
+Lemma run_from_snoc c c2s o : forall a s,
+  fst (run_from c c2s s (a ++ [o])) =
+  fst (run_from c c2s s a) ++ [snd (step c c2s (snd (run_from c c2s s a)) o)].
+Proof.
+  induction a as [|x a IH]; intros s.
+  - cbn [app]. rewrite run_from_cons. reflexivity.
+  - cbn [app]. rewrite !run_from_cons, IH, run_from_cons_snd. reflexivity.
+Qed.
+
+Definition not_closing (o : op) : Prop :=
+  match o with Close | CloseSink => False | _ => True end.
+
+(* without a closing op the machine stays open and every written entry fits *)
+Lemma run_open c c2s : is_framed (codec c) = true ->
+  forall ops s, Forall not_closing ops -> closed s = false -> Forall fits (written s) ->
+  closed (snd (run_from c c2s s ops)) = false /\ Forall fits (written (snd (run_from c c2s s ops))).
+Proof.
+  intros Hf. induction ops as [|o ops IH]; intros s Hn Hc HW.
+  - split; assumption.
+  - apply Forall_cons_iff in Hn. destruct Hn as [Ho Hn].
+    rewrite run_from_cons_snd, (step_open c c2s s o Hf Hc).
+    destruct o as [m|p t| | |]; try contradiction.
+    + destruct (payload_of (codec c) m) as [p|]; [|apply IH; assumption].
+      destruct (frame_encode max_frame_default p) as [f|] eqn:Ef; [|apply IH; assumption].
+      apply frame_encode_some in Ef. destruct Ef as [_ Hfit]. cbn [fst].
+      apply IH; [exact Hn|reflexivity|]. cbn [written]. apply Forall_app. split; [exact HW|].
+      constructor; [exact Hfit|constructor].
+    + destruct (frame_encode max_frame_default p) as [f|] eqn:Ef; [|apply IH; assumption].
+      apply frame_encode_some in Ef. destruct Ef as [_ Hfit]. cbn [fst].
+      apply IH; [exact Hn|reflexivity|]. cbn [written]. apply Forall_app. split; [exact HW|].
+      constructor; [exact Hfit|constructor].
+    + apply IH; assumption.
+Qed.
+
+(* an uncut stream: every frame, then end-of-stream *)
+Lemma close_obs_nocut c c2s W : cut c = 0%nat -> Forall fits W ->
+  close_obs c c2s W = map (expo (codec c) c2s) W ++ [OEnd].
+Proof.
+  intros Hcut HW. rewrite (close_obs_gen c c2s W HW).
+  assert (Hk : kept_of c (map (ent (codec c) c2s) W) = (total (map (ent (codec c) c2s) W) + 0)%nat).
+  { unfold kept_of. rewrite Hcut. cbn [Nat.eqb]. lia. }
+  rewrite Hk. rewrite <- (app_nil_r (map (ent (codec c) c2s) W)) at 1.
+  rewrite whole_frames_prefix. cbn [whole_frames Nat.eqb]. rewrite app_nil_r. reflexivity.
+Qed.
+
+(* the reader's item for a frame is a message or an Err item, nothing else *)
+Lemma expo_kind C c2s w : expo C c2s w = ORecvErr \/ exists m, expo C c2s w = ORecv m.
+Proof.
+  unfold expo, decode_payload. destruct w as [p t]. cbn [fst].
+  destruct C as [| |cap|]; try (left; reflexivity).
+  - destruct c2s.
+    + destruct (cm_of_bincode p); [right; eexists; reflexivity|left; reflexivity].
+    + destruct (resp_of_bincode p); [right; eexists; reflexivity|left; reflexivity].
+  - destruct t as [t|]; [|left; reflexivity].
+    destruct (bytes_eqb p p); [|left; reflexivity]. destruct c2s.
+    + destruct (cm_of_json t); [right; eexists; reflexivity|left; reflexivity].
+    + destruct (resp_of_json t); [right; eexists; reflexivity|left; reflexivity].
+Qed.
+
+Lemma expo_items C c2s W o : In o (map (expo C c2s) W) -> o = ORecvErr \/ exists m, o = ORecv m.
+Proof.
+  intros Hin. apply in_map_iff in Hin. destruct Hin as (w & <- & _). apply expo_kind.
+Qed.
+
+Theorem c15_close_signals_end : forall c ops,
+  is_framed (codec c) = true -> cut c = 0%nat ->
+  Forall (op_wf (is_c2s (ops ++ [CloseSink]))) ops ->
+  Forall (fun o => match o with Close | CloseSink => False | _ => True end) ops ->
+  exists items, last (fst (run c (ops ++ [CloseSink]))) [] = OShut :: items ++ [OEnd] /\
+                ~ In OStreamErr items /\ ~ In OEnd items /\ ~ In OShut items.
+Proof.
+  intros c ops Hf Hcut _ Hn. unfold run.
+  set (c2s := is_c2s (ops ++ [CloseSink])).
+  destruct (run_open c c2s Hf ops init Hn eq_refl (Forall_nil _)) as [Hc HW].
+  exists (map (expo (codec c) c2s) (written (snd (run_from c c2s init ops)))).
+  split; [|split; [|split]].
+  - rewrite run_from_snoc, last_last, (step_open c c2s _ CloseSink Hf Hc). cbn [snd].
+    rewrite (close_obs_nocut c c2s _ Hcut HW). reflexivity.
+  - intros Hin. apply expo_items in Hin. destruct Hin as [Hin|[m Hin]]; discriminate Hin.
+  - intros Hin. apply expo_items in Hin. destruct Hin as [Hin|[m Hin]]; discriminate Hin.
+  - intros Hin. apply expo_items in Hin. destruct Hin as [Hin|[m Hin]]; discriminate Hin.
 Qed.
